@@ -237,6 +237,18 @@ class HItem(BatchItemBase):
 
 
 def run_case(c):
+    from asynq import _debug
+    saved = {k: getattr(_debug.options, k) for k in c.get("opts", {})}
+    for k, v in c.get("opts", {}).items():
+        setattr(_debug.options, k, v)
+    try:
+        return _run_case(c)
+    finally:
+        for k, v in saved.items():
+            setattr(_debug.options, k, v)
+
+
+def _run_case(c):
     flavour, scripts, ops = c["args"]
     env = Env(flavour, scripts)
     if flavour == "H":
